@@ -15,6 +15,9 @@ CLAIMED = {
  'C14': dict(technique='Lean 4 proof of the 1D state machine against the rank invariant (run_spec) + executable cubical/reduction specification for the rectangle + differential correspondence (exhaustive weak orders) + Python elder-rule oracle',
              text='The goto state machine of the 1D routine is modelled label by label in Lean and proved for every finite sequence to emit exactly the bars of the H0 rank invariant (run_spec, surgery lemmas); gvdriver C14 runs that model against the real routine in four call forms in emission order, exhaustively over every weak order up to length 6/7. The rectangle routine is compared, for every weak order of small grids and random grids, with the executable specification (lower-star cubical complex reduced by the proved reference reduction); there is no Lean model of fill_and_pair yet (partial).',
              note='Lean kernel + standard axioms; integer-valued inputs; 2D part is spec-level (cert_unique backs the reference reduction), no branch-level model of the rectangle routine', ref='§5 C14'),
+ 'C13': dict(technique='Lean 4 theorems (dd = 0 on counter vectors, enumeration = boundary, index/counter bijection) + executable position-level model incl. periodic wrap + differential correspondence + independent Python geometric spec',
+             text='The cubical boundary on counter vectors is proved to square to zero in every dimension and the C++ enumeration with alternating signs is proved to be that boundary; the flat-index/counter maps are proved inverse. gvdriver C13 runs a position-level model (both classes, periodic wrap, coboundary, lower-star values under both conventions, filtration order) against the real classes for every small shape and random shapes, the harness evaluates dd = 0 on the real output (enumeration signs and incidence function), persistence over Z2/Z3/Zp is compared with the reference reduction, and a Python geometric specification checks every cell independently.',
+             note='Lean kernel + standard axioms; position-level model tied to the counter-level theorems by correspondence (partial); integer values with +-infinity tokens', ref='§5 C13'),
 }
 ALL = ['C%02d' % i for i in range(1, 21)]
 checks = []
